@@ -8,7 +8,8 @@ if marker in s:
     s = s[:s.index(marker)]
 out = ["", "## Appendix E — Seeded changes (`/verif/seeded/<id>_<k>/`) and the checks that catch them", "",
        "Each change was written by a fresh sub-agent that saw only the property text and a scratch worktree (round 2 was also told the",
-       "summary of the round-1 change, to force a different mechanism). I confirmed every one with `tools/confirm_seed.py` (the patch applies",
+       "summary of the round-1 change, to force a different mechanism; round 5 got a per-property hint towards multi-step sequences and",
+       "cooperating edits, round 6 additionally the summaries of every earlier change for its property). I confirmed every one with `tools/confirm_seed.py` (the patch applies",
        "to HEAD; the demonstration passes on the unchanged tree and fails with the change; the suite result is unchanged) and ran the check on",
        "the patched tree in isolation with `tools/try_patch.sh`. Generated from the `meta.json` files.", "",
        "| seed | change | needs | outcome |", "|---|---|---|---|"]
